@@ -416,12 +416,17 @@ def identToken (U : Cls) (src : Bytes) : Option Nat :=
 /-- parser `symbolLiteral` on the source `:…` (the literal must be the whole source) -/
 def readSymbol (U : Cls) (src : Bytes) : Option Bytes :=
   match src with
-  | 0x3A :: 0x22 :: body => readLoop U.letter body []
-  | 0x3A :: rest =>
-    match identToken U rest with
-    | some k => if k = rest.length then some rest else none
-    | none => none
-  | _ => none
+  | c :: rest =>
+    if c ≠ 0x3A then none
+    else
+      let ident : Option Bytes :=
+        match identToken U rest with
+        | some k => if k = rest.length then some rest else none
+        | none => none
+      match rest with
+      | q :: body => if q = 0x22 then readLoop U.letter body [] else ident
+      | [] => ident
+  | [] => none
 
 /-! ### Int -/
 
